@@ -287,6 +287,23 @@ def oracle_c11(b, report):
                         report('eltorito-boot-info-readback', 'boot file %s read back through the API differs from the patched content' % bf, None)
                 except Exception as ex:
                     report('eltorito-boot-info-readback', 'boot file %s cannot be read back: %s' % (bf, ex), None)
+    # every ordinary file still reads its own bytes (a file is not mistaken for the catalog or a boot image)
+    if b.iso2 is not None:
+        booted = set(op['bootfile'] for op in boot_ops if op.get('boot_info_table'))
+        for op, o in zip(b.ops, b.outs):
+            if op['k'] != 'add_fp' or o != 'ok' or op.get('iso') in booted:
+                continue
+            for ns, key in (('iso', 'iso'), ('jol', 'jol')):
+                if key not in op or op[key] not in s.ns[ns]:
+                    continue
+                try:
+                    got = sysimg.api_read(b.iso2, ns, op[key])
+                except Exception as ex:
+                    report('file-unreadable:' + ns, 'on a bootable image %s:%s cannot be read: %s' % (ns, op[key], ex), None)
+                    continue
+                if got != syslevel.blob_content(op['blob'], op['size']):
+                    report('file-content:' + ns, 'on a bootable image %s:%s reads %d bytes that are not the %d bytes supplied'
+                           % (ns, op[key], len(got), op['size']), None)
     # the catalog as a file under its names
     cat = b.img[et['catalog_sector'] * LBS:et['catalog_sector'] * LBS + LBS]
     if b.iso2 is not None:
